@@ -4,6 +4,7 @@ package main
 
 import (
 	"fmt"
+	"math/big"
 	"go/ast"
 	"go/token"
 	"go/types"
@@ -22,6 +23,7 @@ type State struct {
 	Reach *Term
 	Mem   *Term
 	Alloc *Term
+	Locks *Term // ghost: lock counts per mutex address; never havocked by abstraction
 }
 
 type Edge struct {
@@ -82,6 +84,7 @@ type FnTr struct {
 	curLoops []*loopFrame
 	lockDepth map[string]*Term
 	curInstr ssa.Instruction
+	lockSites [][2]*Term // mutex addresses locked/unlocked somewhere in the function
 	fnFrame  []cellRange // declared modifies of the top-level function, evaluated at entry
 	storeChecks bool     // recovering function with a frame: every write is checked against it
 	monoDefs map[string][2]*Term
@@ -143,6 +146,7 @@ type loopFrame struct {
 
 type cellRange struct {
 	Obj, Lo, Hi *Term // cells [Lo,Hi) of object Obj
+	T           types.Type // if non-nil: the range is exactly one value of this type (for cell-type tags)
 }
 
 func (tr *FnTr) pos(p token.Pos) string {
@@ -462,6 +466,7 @@ func (tr *FnTr) mergeEdges(b *ssa.BasicBlock, edges []*Edge) (State, []Val, bool
 		rs = append(rs, e.St.Reach)
 		st.Mem = Ite(e.St.Reach, e.St.Mem, st.Mem)
 		st.Alloc = Ite(e.St.Reach, e.St.Alloc, st.Alloc)
+		st.Locks = Ite(e.St.Reach, e.St.Locks, st.Locks)
 		if len(e.Phis) > 0 {
 			np := make([]Val, len(e.Phis))
 			for k := range e.Phis {
@@ -494,6 +499,7 @@ func (tr *FnTr) mergeEdges(b *ssa.BasicBlock, edges []*Edge) (State, []Val, bool
 	st.Reach = tr.vc.Def("reach_"+tag, Or(rs...))
 	st.Mem = tr.vc.Def("mem_"+tag, st.Mem)
 	st.Alloc = tr.vc.Def("alloc_"+tag, st.Alloc)
+	st.Locks = tr.vc.Def("locks_"+tag, st.Locks)
 	return st, phis, true
 }
 
@@ -519,6 +525,9 @@ func (tr *FnTr) defVal(base string, v Val) Val {
 		if out.L[i] != t {
 			if k, ok := tr.eng.bits[t.Key()]; ok {
 				tr.eng.bits[out.L[i].Key()] = k
+			}
+			if z, ok := tr.eng.negBit[t.Key()]; ok {
+				tr.eng.negBit[out.L[i].Key()] = z
 			}
 		}
 	}
@@ -583,7 +592,7 @@ func (tr *FnTr) addEdge(b, s *ssa.BasicBlock, reach *Term) {
 	if reach.IsFalse() {
 		return
 	}
-	e := &Edge{From: b, To: s, St: State{Reach: reach, Mem: tr.st.Mem, Alloc: tr.st.Alloc}}
+	e := &Edge{From: b, To: s, St: State{Reach: reach, Mem: tr.st.Mem, Alloc: tr.st.Alloc, Locks: tr.st.Locks}}
 	// which predecessor index?
 	idx := -1
 	for i, p := range s.Preds {
@@ -629,7 +638,7 @@ func (tr *FnTr) panicEdge(kind string, ok *Term, p token.Pos) {
 	top := tr.top
 	if top.refute && top.recovering && !tr.excMode {
 		if r := And(tr.st.Reach, Not(ok)); !r.IsFalse() {
-			top.excEdges = append(top.excEdges, excEdge{St: State{Reach: r, Mem: tr.st.Mem, Alloc: tr.st.Alloc}})
+			top.excEdges = append(top.excEdges, excEdge{St: State{Reach: r, Mem: tr.st.Mem, Alloc: tr.st.Alloc, Locks: tr.st.Locks}})
 		}
 	}
 	if top.recovering || tr.excMode || (top.ct != nil && top.ct.NoPanicCheck) {
@@ -696,7 +705,7 @@ func (tr *FnTr) procLoop(l *Loop) {
 		tr.vc.Oblige(tr.prefix+"inv.entry."+lname, labelOr(c.Label, i+1), Implies(est.Reach, g), c.Pos)
 	}
 	// 2. havoc
-	hst := State{Reach: est.Reach}
+	hst := State{Reach: est.Reach, Locks: est.Locks}
 	writes, allocs := tr.loopEffects(l)
 	if !writes && !allocs {
 		hst.Mem, hst.Alloc = est.Mem, est.Alloc
@@ -773,6 +782,7 @@ func (tr *FnTr) procLoop(l *Loop) {
 		if writes {
 			tr.frameObligation(tr.prefix+"frame", lname+suffix, e.St, hst.Mem, est.Alloc, fr.frame)
 		}
+		tr.lockBalance(tr.prefix+"lockbalance", lname+suffix, e.St, hst.Locks)
 	}
 }
 
@@ -831,11 +841,18 @@ func (tr *FnTr) havocMem(m, alloc *Term, frame []cellRange, allocs bool, tag str
 	m1 := m
 	for i, r := range frame {
 		old := Select(m1, r.Obj)
-		if lo, hi := r.Lo.IntConst(), Sub(r.Hi, r.Lo).IntConst(); hi != nil && hi.IsInt64() && hi.Int64() <= 32 && lo != nil || (hi != nil && hi.IsInt64() && hi.Int64() <= 32) {
+		if hi := constDiff(r.Hi, r.Lo); hi != nil && hi.IsInt64() && hi.Int64() <= 32 {
 			n := int(hi.Int64())
 			a := old
+			var leaves []Leaf
+			if r.T != nil && sizeOf(r.T) == n {
+				leaves = layoutOf(r.T).Leaves
+			}
 			for k := 0; k < n; k++ {
 				a = Store(a, Add(r.Lo, Int(int64(k))), vc.Fresh(fmt.Sprintf("hv_%s_%d", tag, i), SInt))
+				if leaves != nil {
+					a.Name = leafTag(leaves[k])
+				}
 			}
 			m1 = vc.Def("mem_hv_"+tag, Store(m1, r.Obj, a))
 			continue
@@ -855,13 +872,21 @@ func (tr *FnTr) havocMem(m, alloc *Term, frame []cellRange, allocs bool, tag str
 		vc.Assume(Forall([]*Term{j}, Implies(Or(Lt(j, r.Lo), Ge(j, r.Hi)), Eq(Select(na, j), Select(old, j))), Select(na, j)))
 		m1 = vc.Def("mem_hv_"+tag, Store(m1, r.Obj, na))
 	}
-	if !allocs {
-		return m1
+	// Objects allocated meanwhile have ids >= alloc. Nothing is known about the content of
+	// m at such ids (they were unallocated), so "m1 at those ids" already stands for an
+	// arbitrary content: no separate fresh memory (and no quantifier) is needed.
+	_ = allocs
+	return m1
+}
+
+// constDiff returns hi-lo when it is a constant (same symbolic base).
+func constDiff(hi, lo *Term) *big.Int {
+	bh, ch := normIdx(hi)
+	bl, cl := normIdx(lo)
+	if bh == bl {
+		return new(big.Int).Sub(ch, cl)
 	}
-	m2 := vc.Fresh("mem_"+tag, SMem)
-	o := Sym("o!q", SInt)
-	vc.Assume(Forall([]*Term{o}, Implies(Lt(o, alloc), Eq(Select(m2, o), Select(m1, o))), Select(m2, o)))
-	return m2
+	return Sub(hi, lo).IntConst()
 }
 
 // upperBound: a static upper bound of a term built from constants, ite and +.
@@ -1052,4 +1077,24 @@ func (tr *FnTr) unrollLoop(l *Loop, est State, ephis []Val, phis []*ssa.Phi, max
 		}
 		st, cur = nst, nphis
 	}
+}
+
+// lockBalance: every mutex the function touches has the same ghost lock count in st as in
+// base (on return: as on entry; at a loop back edge: as at the loop head).
+func (tr *FnTr) lockBalance(kind, label string, st State, base *Term) {
+	top := tr.top
+	if len(top.lockSites) == 0 || st.Locks == nil || base == nil {
+		return
+	}
+	var cs []*Term
+	seen := map[string]bool{}
+	for _, a := range top.lockSites {
+		k := a[0].Key() + "/" + a[1].Key()
+		if seen[k] {
+			continue
+		}
+		seen[k] = true
+		cs = append(cs, Eq(Select(Select(st.Locks, a[0]), a[1]), Select(Select(base, a[0]), a[1])))
+	}
+	tr.vc.Oblige(kind, label, Implies(st.Reach, And(cs...)), "")
 }
